@@ -631,7 +631,7 @@ func effectiveReturns(c *chk.Ctx, f *ssa.Function, depth int) []*ssa.Return {
 			}
 		}
 		if tail != nil {
-			if g := tail.Call.StaticCallee(); g != nil && c.P.InRepo[g] && !ir.Exported(g) && g != f {
+			if g := tail.Call.StaticCallee(); g != nil && c.P.InRepo[g] && !ir.Exported(g) && g != f && g.Signature.Results().Len() == len(r.Results) {
 				out = append(out, effectiveReturns(c, g, depth+1)...)
 				continue
 			}
